@@ -793,6 +793,26 @@ func runXrt(c Case, raw json.RawMessage) vh.Record {
 			if err = b.Set("gofn", func() interface{} { return val }); err == nil {
 				got, err = b.RunString("gofn()")
 			}
+		case "callthis", "rtnew":
+			// the value as 'this' of a runtime-B Callable / as an argument of Runtime.New
+			var fv goja.Value
+			fv, err = b.RunString("(function(o){ this.k = typeof o; return typeof this })")
+			if err == nil {
+				v, _ := val.(goja.Value)
+				if v == nil {
+					v = b.ToValue(val)
+				}
+				if c.Xrt.Path == "callthis" {
+					fn, _ := goja.AssertFunction(fv)
+					got, err = fn(v)
+				} else {
+					var o *goja.Object
+					o, err = b.New(fv, v)
+					if err == nil {
+						got = o.Get("k")
+					}
+				}
+			}
 		case "callarg":
 			// the value handed directly to a Callable of runtime B (no conversion on the way)
 			var fv goja.Value
@@ -831,15 +851,15 @@ func runXrt(c Case, raw json.RawMessage) vh.Record {
 		code = 0
 	}()
 	names := []string{"accepted", "null", "TypeError", "other"}
-	return vh.Record{Case: raw, Coq: fmt.Sprintf("CXrt %s 1 (%s) %s", vh.CoqBool(c.Xrt.Path == "callarg"), g, vh.CoqN(uint64(code))),
+	return vh.Record{Case: raw, Coq: fmt.Sprintf("CXrt %s 1 (%s) %s", vh.CoqBool(c.Xrt.Path == "callarg" || c.Xrt.Path == "callthis" || c.Xrt.Path == "rtnew"), g, vh.CoqN(uint64(code))),
 		Obs: names[code] + " " + detail, Tags: []string{"xrt", "xrt:" + c.Xrt.Obj, "path:" + c.Xrt.Path}, Nontrivial: g == "GObject 0"}
 }
 
 func genXrt(r *vh.Rng) Case {
 	objs := []string{"object", "array", "func", "date", "proxy", "own", "prim", "sym", "nil"}
-	paths := []string{"set", "tovalue", "setfield", "newarray", "goret", "callarg"}
+	paths := []string{"set", "tovalue", "setfield", "newarray", "goret", "callarg", "callthis", "rtnew"}
 	c := Case{Kind: "xrt", Xrt: &XrtSpec{Obj: objs[r.Intn(len(objs))], Path: paths[r.Intn(len(paths))]}}
-	if c.Xrt.Path == "callarg" && c.Xrt.Obj == "nil" {
+	if (c.Xrt.Path == "callarg" || c.Xrt.Path == "callthis" || c.Xrt.Path == "rtnew") && c.Xrt.Obj == "nil" {
 		c.Xrt.Obj = "object" // a nil *Object is not a Value that can be passed directly
 	}
 	return c
